@@ -6,7 +6,7 @@ import vlib
 from vlib import Case, hx, unhx, parse_val
 
 PROP = "C11"
-PROOF_FILES = ["Properties/C11.v"]
+PROOF_FILES = ["Properties/C11.v", "Properties/ModelTie.v"]
 PLAIN = (0xBE, 0xBF, 0xF0, 0xF1, 0xF2, 0xF8, 0xFF)
 M33 = 1 << 33
 RULE = ("well-formed PES starts from logical records: all 256 stream ids x PTS_DTS {00,10,11} x header_data_length {min, min+1, "
